@@ -108,12 +108,14 @@ Definition enc_fdef (nd : ident * fdef) : wv :=
   WL [wtext (fst nd); enc_cty (fd_ret (snd nd)); enc_decls (fd_params (snd nd)); enc_decls (fd_locals (snd nd));
       WL (map enc_cty (fd_tmps (snd nd)))].
 
-(* (0 globals loop_locals functions labels final_var_types) | (1 4) *)
+(* (0 globals loop_locals functions labels final_var_types tuple_temporaries) | (1 4) *)
 Definition enc_prog (r : option pstate) : wv :=
   match r with
   | None => werr 4
   | Some ps =>
       wok [enc_decls (p_globals ps); enc_decls (p_loop ps);
            WL (map enc_fdef (selected_functions (p_fe ps)));
-           enc_labels (p_labels ps); enc_tenv (d_types (p_ctx ps))]
+           enc_labels (p_labels ps); enc_tenv (d_types (p_ctx ps));
+           WL (map (fun xt => enc_cty (cpp_type (snd xt)))
+                   (filter (fun xt => text_eqb (fst xt) tmp_marker) (p_labels ps)))]
   end.
